@@ -50,4 +50,6 @@ def run(ctx):
     for m in r['mutants']:
         k = m['mutation']['kind']
         res['distribution']['mutation_kinds'][k] = res['distribution']['mutation_kinds'].get(k, 0) + 1
-    return res
+    from props import collide
+    return collide.add(ctx, res, 'C05')
+
